@@ -8,7 +8,7 @@ Writes what was run and observed to <out json>."""
 import json, os, shutil, subprocess, sys, tempfile, re
 
 seed, out = sys.argv[1], sys.argv[2]
-TGT = "/tmp/wv-seed-target"
+TGT = os.environ.get("WV_SEED_TARGET", "/tmp/wv-seed-target")
 res = {"seed": seed, "steps": []}
 
 
